@@ -691,10 +691,8 @@ func driveLatchFree(beh behaviour, seed int64) *fw.Trace {
 	close(startGun)
 	done := make(chan struct{})
 	go func() { wg.Wait(); close(done) }()
-	select {
-	case <-done:
-	case <-time.After(10 * time.Second):
-		return &fw.Trace{Status: fw.DriverError, Note: r.kind + ": free-running closers did not finish"}
+	if t := awaitFree(done, r.kind+": free-running closers"); t != nil {
+		return t
 	}
 	return r.finish(beh.Seed%8 == 0)
 }
